@@ -261,3 +261,74 @@ fn w_os_to_cstring_b4() {
         }
     }
 }
+
+// =========================================================================================== bounded stand-ins (labelled, never counted as proved)
+const PN: usize = 3;
+
+// ---- C15 (bounded: PATH of exactly 3 bytes over {':','a','b'}): split_path yields the maximal colon-free runs, non-empty, in order, complete
+#[kani::proof]
+#[kani::unwind(5)]
+fn b_split_path_b3() {
+    let bytes: [u8; PN] = kani::any();
+    let mut i = 0;
+    while i < PN { kani::assume(bytes[i] == b':' || bytes[i] == b'a' || bytes[i] == b'b'); i += 1; }
+    let path = OsStr::from_bytes(&bytes);
+    let mut it = split_path(path);
+    let mut flat = [0u8; PN]; let mut nflat = 0; let mut runs = 0;
+    i = 0;
+    while i < PN { if bytes[i] != b':' { flat[nflat] = bytes[i]; nflat += 1; if i == 0 || bytes[i - 1] == b':' { runs += 1; } } i += 1; }
+    let mut got = [0u8; PN]; let mut ngot = 0; let mut pieces = 0;
+    let mut k = 0;
+    while k < PN + 1 {
+        match it.next() {
+            None => break,
+            Some(p) => {
+                let pb = p.as_bytes();
+                assert!(pb.len() > 0 && pb.len() <= PN - ngot);
+                let mut j = 0;
+                while j < pb.len() { assert!(pb[j] != b':'); got[ngot] = pb[j]; ngot += 1; j += 1; }
+                pieces += 1;
+            }
+        }
+        k += 1;
+    }
+    assert!(it.next().is_none());
+    assert!(pieces == runs && ngot == nflat);
+    i = 0;
+    while i < PN { assert!(got[i] == flat[i]); i += 1; }
+}
+
+// ---- C15/C17/C07 (bounded: command "x", PATH of exactly 3 bytes over {':','a'}): PrepExec::exec tries "<dir>/x\0" for every non-empty
+// entry in order, in the SAME preallocated buffer (no reallocation), and -- exec never succeeding in the model -- returns Err on every path
+#[kani::proof]
+#[kani::stub(crate::posix::check_err, model_check_err)]
+#[kani::unwind(6)]
+fn b_exec_path_b3() {
+    let bytes: [u8; PN] = kani::any();
+    let mut i = 0;
+    while i < PN { kani::assume(bytes[i] == b':' || bytes[i] == b'a'); i += 1; }
+    let search = OsStr::from_bytes(&bytes).to_owned();
+    let argvec = CVec::new(&["x"]).unwrap();
+    let prep = PrepExec::new(OsString::from("x"), argvec, None, Some(search));
+    let cap0 = prep.prealloc_exe.capacity();
+    unsafe { m::ATTEMPTS = 0; m::EXEC_CALLS = 0; }
+    let r = prep.exec();
+    // expected attempts: one per maximal run of 'a'
+    let mut runs = 0; let mut run_len = [0usize; 2];
+    i = 0;
+    while i < PN { if bytes[i] != b':' { if i == 0 || bytes[i - 1] == b':' { runs += 1; } run_len[runs - 1] += 1; } i += 1; }
+    unsafe {
+        assert!(m::ATTEMPTS == runs && m::EXEC_KIND != 2);
+        assert!(cap0 >= PN + 3);
+        let mut a = 0;
+        while a < runs {
+            let n = run_len[a];
+            let mut j = 0;
+            while j < n { assert!(m::ATTEMPT_BYTES[a][j] == b'a'); j += 1; }
+            assert!(m::ATTEMPT_BYTES[a][n] == b'/' && m::ATTEMPT_BYTES[a][n + 1] == b'x' && m::ATTEMPT_BYTES[a][n + 2] == 0);
+            assert!(m::ATTEMPT_PTR[a] == m::ATTEMPT_PTR[0]);     // same buffer every time: nothing was reallocated
+            a += 1;
+        }
+    }
+    assert!(r.is_err());      // a failed lookup is an error, never "Ok" (nothing was executed)
+}
